@@ -294,7 +294,29 @@ impl Cnf {
 
     pub fn from_dimacs(input: &str) -> Cnf {
         use dimacs::*;
-        let (_, cvec) = match parse_dimacs(input).unwrap() {
+        // the `dimacs` crate lexes a lone `0` as the clause terminator even inside the problem
+        // line, so it rejects the legal headers "p cnf 3 0" (no clause: the empty formula),
+        // "p cnf 0 0" and "p cnf 0 1".  Neither the crate nor this function uses the declared
+        // counts (clauses are read up to the end of the input and `num_vars` is recomputed from
+        // the literals), so the problem line is replaced by one with non-zero counts.
+        let input: String = input
+            .lines()
+            .map(|line| {
+                let toks: Vec<&str> = line.split_whitespace().collect();
+                let is_header = toks.len() == 4
+                    && toks[0] == "p"
+                    && toks[1] == "cnf"
+                    && toks[2].parse::<u64>().is_ok()
+                    && toks[3].parse::<u64>().is_ok();
+                if is_header {
+                    "p cnf 1 1"
+                } else {
+                    line
+                }
+            })
+            .collect::<Vec<&str>>()
+            .join("\n");
+        let (_, cvec) = match parse_dimacs(&input).unwrap() {
             Instance::Cnf { num_vars, clauses } => (num_vars, clauses),
             Instance::Sat {
                 num_vars: _,
